@@ -5,6 +5,7 @@ import (
 	"compress/gzip"
 	"context"
 	"runtime"
+	"tunnox-core/internal/packet"
 
 	"tunnox-core/internal/constants"
 )
@@ -64,7 +65,16 @@ func Harness_C05_inflate() {
 		}
 		body = c05RealGzip(want)
 	}
-	hdr := []byte{0x40 | 0x22, byte(len(body) >> 24), byte(len(body) >> 16), byte(len(body) >> 8), byte(len(body))}
+	// any base packet type with the compressed flag: command frames go on to parse the inflated
+	// bytes as their JSON envelope, the others hand them out as payload
+	tsel := verif_Choose(5)
+	if tsel != 0 {
+		// the JSON-carrying types are explored with small inflated sizes only (the size bound is
+		// the business of the payload type above; here the inflated bytes get parsed)
+		verif_Assume(l32[0] == 0 && l32[1] == 0 && l32[2] == 0 && l32[3] < 4)
+	}
+	typ := 0x40 | byte([]packet.Type{0x22, packet.JsonCommand, packet.CommandResp, packet.Handshake, packet.TunnelOpen}[tsel])
+	hdr := []byte{typ, byte(len(body) >> 24), byte(len(body) >> 16), byte(len(body) >> 8), byte(len(body))}
 	rd := &verifReader{Data: append(hdr, body...)}
 	sp := NewStreamProcessor(rd, nil, context.Background())
 	before := c05TotalAlloc()
@@ -84,6 +94,7 @@ func Harness_C05_inflate() {
 }
 
 func c05RealGzip(n int) []byte {
+	n0 := n
 	var b bytes.Buffer
 	w := gzip.NewWriter(&b)
 	chunk := make([]byte, 1<<20)
@@ -96,6 +107,9 @@ func c05RealGzip(n int) []byte {
 		n -= k
 	}
 	w.Close()
+	if n0 == 0 {
+		return b.Bytes() // a valid member that inflates to nothing
+	}
 	// a second, tiny member: the stream's trailing ISIZE then describes only this one,
 	// so a decoder that trusts the trailer instead of bounding the output is exposed too
 	w2 := gzip.NewWriter(&b)
